@@ -16,5 +16,8 @@ CONSTANTS
   RegAfters = {"keep"}
   RegEmpties = {FALSE}
   AddAliases = FALSE
+  STypes = {"ptr"}
+  TypesFullUpTo = 100
+  DedupByValue = FALSE
 INVARIANTS Registered SEmit AtReturn ReverseOrder
 CHECK_DEADLOCK FALSE
